@@ -665,7 +665,9 @@ ShareAction(S, kh, winAct) ==
               S1  == [S EXCEPT !.flows[k].ctx = [v \in DOMAIN @ |-> IF @[v] = <<"act", a>> THEN <<"act", winAct>> ELSE @[v]],
                                !.actions[winAct].scope = @ + n]
               pos == CHOOSE q \in 1..Len(f.actions) : f.actions[q] = a
-              S2  == [S1 EXCEPT !.flows[k].actions[pos] = winAct]
+              S2  == [S1 EXCEPT !.flows[k].actions[pos] = winAct,
+                                \* the open scopes of the flow refer to the action as well
+                                !.flows[k].scopes = [q \in 1..Len(@) |-> <<@[q][1], @[q][2], [j \in 1..Len(@[q][3]) |-> IF @[q][3][j] = a THEN winAct ELSE @[q][3][j]]>>]]
           IN [S2 EXCEPT !.actions[a].status = "DELETED"]
 RECURSIVE Groups(_, _, _)
 Groups(S, heads, acc) ==      \* group by loop, preserving first-appearance order
